@@ -198,6 +198,9 @@ async fn run_one(i: usize, b: Value, path: String, unit: usize, interval: u16) -
                     if res != s["res"].as_str().unwrap() {
                         return mismatch(i, k, "append result", s["res"].clone(), json!(res));
                     }
+                    if res != "ok" {
+                        break; // a refused batch is refused as a whole: nothing of it is written
+                    }
                 }
             }
             "truncate" => {
